@@ -479,19 +479,19 @@ let handle_ext toks =
   (* ---------------- C10: EPS / PDF / PGF writer models ---------------- *)
   | ["w_eps"; rows; size; date; scale; border; dark; light] ->
       (match color_of_string dark with
-       | None -> Some "ERR dark=None is outside the model"
+       | None -> Some "XERR dark=None is outside the model"
        | Some d -> Some (res_bytes (Vector.write_eps (zrows_of_string rows) (zi size) (zi size) (cps_of_string date) (pynum_of_string scale) (ozi border)
                                       d (color_of_string light))))
   (* <colortab>: texts of str(1/255.0*c) for the colour components that occur:  c=<cps>,c=<cps>  or - *)
   | ["w_pdf_content"; colortab; rows; size; scale; border; dark; light] ->
       (match color_of_string dark with
-       | None -> Some "ERR dark=None is outside the model"
+       | None -> Some "XERR dark=None is outside the model"
        | Some d -> Some (res_cps (Vector.pdf_content (table_of_string colortab) (zrows_of_string rows) (zi size) (zi size) (pynum_of_string scale)
                                     (ozi border) d (color_of_string light))))
   (* <deflated>: the compressed stream of the real file (zlib is not modelled: deflate := fun _ -> these bytes) *)
   | ["w_pdf"; deflated; colortab; rows; size; date; scale; border; dark; light] ->
       (match color_of_string dark with
-       | None -> Some "ERR dark=None is outside the model"
+       | None -> Some "XERR dark=None is outside the model"
        | Some d ->
            let z = bytes_of_hex deflated in
            Some (res_bytes (Vector.write_pdf (fun _ -> z) (table_of_string colortab) (zrows_of_string rows) (zi size) (zi size) (cps_of_string date)
@@ -571,7 +571,7 @@ let handle toks =
   (* color_rgba <colour token> <alpha_float 0/1> -> OK r,g,b,a (a in units of 1/10000 when alpha_float) | ERR <exception> *)
   | ["color_rgba"; c; af] ->
       (match color_of_string c with
-       | None -> "ERR bad colour"
+       | None -> "XERR bad colour"
        | Some col -> (match Color.color_to_rgba col (af = "1") with
                       | Ok l -> "OK " ^ string_of_zlist l
                       | Err e -> "ERR " ^ string_of_exn e))
@@ -586,14 +586,14 @@ let handle toks =
       Printf.sprintf "%d,%d,%d,%d" (int_of_z a) (int_of_z b) (int_of_z c) (int_of_z d)
   | ["micro_score"; rows] ->
       let r = rows_of_string rows in string_of_int (int_of_z (evaluate_micro_mask (z_of_int (L.length r)) r))
-  | _ -> "ERR unknown request"
+  | _ -> "XERR unknown request"
 
 let () =
   try
     while true do
       let line = input_line stdin in
       let toks = L.filter (fun s -> s <> "") (S.split_on_char ' ' line) in
-      let ans = try handle toks with e -> "ERR " ^ Printexc.to_string e in
+      let ans = try handle toks with e -> "XERR " ^ Printexc.to_string e in
       print_string ans; print_char '\n'
     done
   with End_of_file -> ()
